@@ -49,6 +49,15 @@ def option_sensitive_pair(rng):
     return out
 
 
+def registry_case(rng):
+    samples = [{"when": rng.choice(["2020-01-02", "2021-03-04T10:20:30", "12:30"]), "what": "free text", "n": "12"},
+               {"when": rng.choice(["2020-05-06", "x"]), "what": "other", "n": "7"}]
+    job = common.gen_job(rng, layout="flat")
+    job["preamble"] = None
+    return {"inputs": [["Root", samples]], "cmps": [["percent", 7, 10], ["number", 10]], "job": job,
+            "kinds": rng.choice([["IntString", "FloatString", "BooleanString"], ["IntString"], []]), "datetime": True}
+
+
 def deep_case(rng):
     """objects nested several hundred levels deep: alone such a generation either works or exhausts the stack, and it
     must do the same next to other generations (an interpreter-wide limit changed by one thread is seen by all)"""
@@ -74,6 +83,8 @@ def falsify(ctx):
             b.insert(rng.randrange(len(b) + 1), c)
         if len(batches) % 3 == 0:
             b.insert(rng.randrange(len(b) + 1), deep_case(rng))       # a document at the edge of the interpreter's stack
+        # a generation with the date/time string types registered: their parsers keep state of their own
+        b.insert(rng.randrange(2), registry_case(rng))
         batches.append(b)
     flat = [c for b in batches for c in b]
     chunks = [batches[i::8] for i in range(8)]
